@@ -75,3 +75,15 @@ let split_arrow (toks : string list) : string list * string list =
     | "->" :: r -> (List.rev acc, r)
     | t :: r -> go (t :: acc) r in
   go [] toks
+
+(* ---- streams ---- *)
+let bytes_list_of_tok (s : string) : coq_N list list =
+  if s = "-" then [] else List.map (fun x -> if x = "" then [] else bytes_of_hex x) (String.split_on_char ',' s)
+
+(* chunk spec: "-" whole | "r<k>" repeat | "a,b,c" *)
+let sizes_of_spec (spec : string) (n : int) : coq_N list =
+  if spec = "-" then []
+  else if spec.[0] = 'r' then begin
+    let k = max 1 (int_of_string (String.sub spec 1 (String.length spec - 1))) in
+    List.init (n / k + 1) (fun _ -> n_of_int k)
+  end else List.map (fun x -> n_of_int (int_of_string x)) (String.split_on_char ',' spec)
